@@ -355,6 +355,9 @@ func (c *RemoteClient) SendTxAndMarkOutputs(ctx context.Context, tx *wire.MsgTx,
 		Indexes: indexes,
 	}
 	if err := c.sendMessage(ctx, &Message{Payload: m}, messageTimeout); err != nil {
+		// The call fails here. Take its request out so it can't take the response to a
+		// later request for the same thing.
+		c.removeRequest(request, messageTimeout)
 		return err
 	}
 
@@ -431,6 +434,9 @@ func (c *RemoteClient) SendExpandedTxAndMarkOutputs(ctx context.Context,
 		Indexes: indexes,
 	}
 	if err := c.sendMessage(ctx, &Message{Payload: m}, messageTimeout); err != nil {
+		// The call fails here. Take its request out so it can't take the response to a
+		// later request for the same thing.
+		c.removeRequest(request, messageTimeout)
 		return err
 	}
 
@@ -526,6 +532,9 @@ func (c *RemoteClient) SaveTxs(ctx context.Context, txs expanded_tx.AncestorTxs)
 		Txs: txs,
 	}
 	if err := c.sendMessage(ctx, &Message{Payload: m}, messageTimeout); err != nil {
+		// The call fails here. Take its request out so it can't take the response to a
+		// later request for the same thing.
+		c.removeRequest(request, messageTimeout)
 		return err
 	}
 
@@ -622,6 +631,9 @@ func (c *RemoteClient) GetTx(ctx context.Context, txid bitcoin.Hash32) (*wire.Ms
 	}, "Sending get tx request")
 	m := &GetTx{TxID: txid}
 	if err := c.sendMessage(ctx, &Message{Payload: m}, messageTimeout); err != nil {
+		// The call fails here. Take its request out so it can't take the response to a
+		// later request for the same thing.
+		c.removeRequest(request, messageTimeout)
 		return nil, err
 	}
 
@@ -743,6 +755,9 @@ func (c *RemoteClient) GetHeaders(ctx context.Context, height, count int) (*Head
 		MaxCount:      uint32(count),
 	}
 	if err := c.sendMessage(ctx, &Message{Payload: m}, messageTimeout); err != nil {
+		// The call fails here. Take its request out so it can't take the response to a
+		// later request for the same thing.
+		c.removeRequest(request, messageTimeout)
 		return nil, err
 	}
 
@@ -831,6 +846,9 @@ func (c *RemoteClient) GetHeader(ctx context.Context, blockHash bitcoin.Hash32) 
 		BlockHash: blockHash,
 	}
 	if err := c.sendMessage(ctx, &Message{Payload: m}, messageTimeout); err != nil {
+		// The call fails here. Take its request out so it can't take the response to a
+		// later request for the same thing.
+		c.removeRequest(request, messageTimeout)
 		return nil, err
 	}
 
@@ -926,6 +944,9 @@ func (c *RemoteClient) GetFeeQuotes(ctx context.Context) (merchant_api.FeeQuotes
 	}, "Sending get fee quotes message")
 	m := &GetFeeQuotes{}
 	if err := c.sendMessage(ctx, &Message{Payload: m}, messageTimeout); err != nil {
+		// The call fails here. Take its request out so it can't take the response to a
+		// later request for the same thing.
+		c.removeRequest(request, messageTimeout)
 		return nil, err
 	}
 
@@ -997,6 +1018,9 @@ func (c *RemoteClient) ReprocessTx(ctx context.Context, txid bitcoin.Hash32,
 		ClientIDs: clientIDs,
 	}
 	if err := c.sendMessage(ctx, &Message{Payload: m}, messageTimeout); err != nil {
+		// The call fails here. Take its request out so it can't take the response to a
+		// later request for the same thing.
+		c.removeRequest(request, messageTimeout)
 		return err
 	}
 
@@ -1069,6 +1093,9 @@ func (c *RemoteClient) MarkHeaderInvalid(ctx context.Context, blockHash bitcoin.
 		BlockHash: blockHash,
 	}
 	if err := c.sendMessage(ctx, &Message{Payload: m}, messageTimeout); err != nil {
+		// The call fails here. Take its request out so it can't take the response to a
+		// later request for the same thing.
+		c.removeRequest(request, messageTimeout)
 		return err
 	}
 
@@ -1141,6 +1168,9 @@ func (c *RemoteClient) MarkHeaderNotInvalid(ctx context.Context, blockHash bitco
 		BlockHash: blockHash,
 	}
 	if err := c.sendMessage(ctx, &Message{Payload: m}, messageTimeout); err != nil {
+		// The call fails here. Take its request out so it can't take the response to a
+		// later request for the same thing.
+		c.removeRequest(request, messageTimeout)
 		return err
 	}
 
